@@ -260,12 +260,13 @@ def check_eval_and_states(ctx):
         ctx.ob("R11.5", "%s.%s.array" % (GATES, k), c.aliases.get("array") == "Bits.array", found=c.aliases.get("array"), required="array = Bits.array (the same basis tensor)", mod=GATES,
                node=c.node, sig="alias-" + k)
         init = m.func("%s.%s.__init__" % (GATES, k))
-        typ = next((s.value for s in init.body if isinstance(s, ast.Assign) and isinstance(s.targets[0], ast.Tuple) and [ast.unparse(x) for x in s.targets[0].elts] == ["dom", "cod"]), None)
+        typ = shape.values_of(init.body, ["dom", "cod"])
         ctx.need(typ is not None, "%s.__init__ does not bind dom, cod" % k)
         want = "(qubit ** 0, qubit ** len(bitstring))" if k == "Ket" else "(qubit ** len(bitstring), qubit ** 0)"
         shape.match(ctx, "R11.5", "%s.%s.__init__:type" % (GATES, k), typ, want, {init.args.vararg.arg: "bitstring"}, mod=GATES, node=init, sig="type-" + k)
         stores = [ast.unparse(s) for s in init.body if isinstance(s, ast.Assign) and "_digits" in ast.unparse(s.targets[0])]
-        ok = any("self._digits, self._dim" in s and "= (bitstring, 2" in s.replace(init.args.vararg.arg, "bitstring") for s in stores)
+        ok = any("self._digits, self._dim" in s and "= (bitstring, 2" in s.replace(init.args.vararg.arg, "bitstring") for s in stores) or \
+            any(s.replace(init.args.vararg.arg, "bitstring") == "self._digits = bitstring" for s in stores)
         ctx.ob("R11.5", "%s.%s.__init__:digits" % (GATES, k), ok, found=stores, required="_digits = bitstring, _dim = 2", mod=GATES, node=init, sig="digits-" + k)
     fn = m.func(GATES + ".QuantumGate.__init__")
     asg = next((s for s in ast.walk(fn) if isinstance(s, ast.Assign) and ast.unparse(s.targets[0]) == "self._array"), None)
